@@ -315,6 +315,7 @@ def _discover_affine(ip, st, fr, H, N, var, region, cont, runner):
                     W.append((cell, fpath))
     ph = {}
     syms = {}
+    iters = {}
     for loc in W:
         try:
             pv = ranged_ref(ip, st, ip.load(st, Target(loc[0], loc[1]), log=False))
@@ -330,6 +331,16 @@ def _discover_affine(ip, st, fr, H, N, var, region, cont, runner):
             ph[loc] = ("ref", Target(tg.cell, tg.path[:-1] + (("br", Lin.sym(n1), Lin.sym(n2)),)))
             syms[n1] = (loc, 1, tg.path[-1][1])
             syms[n2] = (loc, 2, tg.path[-1][2])
+        elif pv[0] == "iter" and pv[1] != "ref":
+            # an iterator stepped by hand in the body (`it.next()` once per iteration): a window that
+            # has consumed `nm` items so far
+            try:
+                inner, lo0, cnt0 = (pv[2], pv[3], pv[4]) if pv[1] == "win" else (pv, ZERO, prims.iter_count(ip, st, pv))
+            except Undecided:
+                continue
+            nm = T.fresh("$a")
+            ph[loc] = ("iter", "win", inner, lo0 + Lin.sym(nm), cnt0 - Lin.sym(nm))
+            iters[loc] = (nm, inner, lo0, cnt0)
     if not ph:
         return {}
     # candidate invariants of the placeholders (verified from the strides below): a size stays
@@ -346,10 +357,31 @@ def _discover_affine(ip, st, fr, H, N, var, region, cont, runner):
             sG.F.add_ge(br[1] - o[1])
             sG.F.add_eq(br[1] + br[2] - o[1] - o[2])
             guessed.append(loc)
+    for loc, (nm, inner, lo0, cnt0) in iters.items():
+        # guessed: some items consumed so far, at least one left (verified below: cnt0 >= stride * N)
+        sG.F.add_ge(Lin.sym(nm))
+        sG.F.add_ge(cnt0 - Lin.sym(nm) - 1)
     try:
         outs, _, _, _ = run_iteration(ip, sG, fr, H, var, N, dict(ph), region, cont, runner)
     except Undecided:
         return {}
+    iter_aff = {}
+    for loc, (nm, inner, lo0, cnt0) in iters.items():
+        vals = set()
+        for s1 in outs:
+            nv = ip.load(s1, Target(loc[0], loc[1]), log=False)
+            if nv[0] == "iter" and nv[1] == "win" and nv[2] == inner:
+                vals.add((nv[3] - lo0 - Lin.sym(nm), nv[4] - cnt0 + Lin.sym(nm)))
+            else:
+                vals.add(None)
+        if len(vals) != 1 or None in vals:
+            return {}
+        c_lo, c_cnt = vals.pop()
+        if not c_lo.is_const() or c_lo.c != 1 or (c_lo + c_cnt) != ZERO:
+            return {}      # only one step per iteration is within the guess made above
+        if not st.F.prove_ge(cnt0 - N):
+            return {}
+        iter_aff[loc] = ("iter", inner, lo0, cnt0, c_lo)
     steps = {}
     for nm, (loc, which, orig) in syms.items():
         vals = set()
@@ -385,6 +417,7 @@ def _discover_affine(ip, st, fr, H, N, var, region, cont, runner):
         elif pv[0] == "ref" and (loc, 1) in steps and (loc, 2) in steps:
             base = ranged_ref(ip, st, ip.load(st, Target(loc[0], loc[1]), log=False))[1]
             affine[loc] = ("ref", base, steps[(loc, 1)], steps[(loc, 2)])
+    affine.update(iter_aff)
     return affine
 
 
@@ -902,6 +935,9 @@ def affine_value(a, j):
     """value of an affinely advancing variable at iteration j."""
     if a[0] == "size":
         return vsize(a[1] + a[2] * j)
+    if a[0] == "iter":
+        _, inner, lo0, cnt0, c = a
+        return ("iter", "win", inner, lo0 + c * j, cnt0 - c * j)
     base = a[1]
     (lo0, s1), (ln0, s2) = a[2], a[3]
     return ("ref", Target(base.cell, base.path[:-1] + (("br", lo0 + s1 * j, ln0 + s2 * j),)))
